@@ -122,6 +122,8 @@ codegen-units = 8
 '''
 
 
+_HELD_LOCKS = {}
+
 class Consumers:
     def __init__(self, name, nbins=14, with_serde=True, reader_route=False):
         self.name = name
@@ -129,8 +131,13 @@ class Consumers:
         # one user at a time per consumer workspace (C01 and C03 share theirs): checks may be started concurrently
         import fcntl
         os.makedirs(os.path.join(vlib.WORK, "consumers"), exist_ok=True)
-        self._lock = open(os.path.join(vlib.WORK, "consumers", name + ".lock"), "w")
-        fcntl.flock(self._lock, fcntl.LOCK_EX)      # released when the process ends
+        # one user at a time per workspace ACROSS processes; re-entrant within a process (a driver that bisects a
+        # failing pack builds the same workspace again: a second flock on a new descriptor would wait for itself)
+        if name not in _HELD_LOCKS:
+            f = open(os.path.join(vlib.WORK, "consumers", name + ".lock"), "w")
+            fcntl.flock(f, fcntl.LOCK_EX)      # released when the process ends
+            _HELD_LOCKS[name] = f
+        self._lock = _HELD_LOCKS[name]
         self.root = os.path.join(vlib.WORK, "consumers", name)
         self.nbins = nbins
         self.cases = {}        # case id -> dict(source, op, kinds)
